@@ -1087,6 +1087,75 @@ func ruleCC6(c *Ctx) {
 			"a range of the minuend is dropped without being moved to the result: its code points are lost although no range of the subtrahend was compared with it")
 		return true
 	})
+	// the same walk written with a cursor: `Push(a[next]); next++`
+	cursors := map[types.Object]bool{}
+	ast.Inspect(fd.Body, func(m ast.Node) bool {
+		if ix, ok := m.(*ast.IndexExpr); ok && usesObj(info, ix.X) == aObj {
+			if o := usesObj(info, ix.Index); o != nil {
+				if _, isVar := o.(*types.Var); isVar {
+					cursors[o] = true
+				}
+			}
+		}
+		if sl, ok := m.(*ast.SliceExpr); ok && usesObj(info, sl.X) == aObj && sl.Low != nil {
+			if o := usesObj(info, sl.Low); o != nil {
+				if _, isVar := o.(*types.Var); isVar {
+					cursors[o] = true
+				}
+			}
+		}
+		return true
+	})
+	pushesAt := func(st ast.Stmt, cur types.Object) bool {
+		es, ok := st.(*ast.ExprStmt)
+		if !ok {
+			return false
+		}
+		call, ok := es.X.(*ast.CallExpr)
+		if !ok || len(call.Args) < 1 {
+			return false
+		}
+		sel, ok := call.Fun.(*ast.SelectorExpr)
+		if !ok || (sel.Sel.Name != "Push" && sel.Sel.Name != "Add") {
+			return false
+		}
+		ix, ok := ast.Unparen(call.Args[0]).(*ast.IndexExpr)
+		return ok && usesObj(info, ix.X) == aObj && usesObj(info, ix.Index) == cur
+	}
+	ast.Inspect(fd.Body, func(m ast.Node) bool {
+		var cur types.Object
+		var at ast.Stmt
+		okStep := false
+		switch x := m.(type) {
+		case *ast.IncDecStmt:
+			if o := usesObj(info, x.X); cursors[o] {
+				cur, at, okStep = o, x, x.Tok == token.INC
+			}
+		case *ast.AssignStmt:
+			if len(x.Lhs) == 1 && len(x.Rhs) == 1 && cursors[usesObj(info, x.Lhs[0])] && x.Tok != token.DEFINE {
+				cur, at = usesObj(info, x.Lhs[0]), x
+				if v, isC := constInt(info, x.Rhs[0]); isC && x.Tok == token.ADD_ASSIGN && v == 1 {
+					okStep = true
+				}
+			}
+		}
+		if cur == nil {
+			return true
+		}
+		n++
+		construct := fmt.Sprintf("rang3.Subtract/leaves-minuend(%s)", nodeText(at))
+		list := enclosingList(par, at)
+		pushed := false
+		for i, st := range list {
+			if st == at && i > 0 && pushesAt(list[i-1], cur) {
+				pushed = true
+			}
+		}
+		c.check(okStep && pushed, rule, construct, p.Pos(at.Pos()),
+			"the cursor into the minuend advances by one directly after the range it leaves behind was pushed onto the result",
+			"the cursor into the minuend advances without the range it skips having been moved to the result: those code points are lost unexamined")
+		return true
+	})
 	if n < 1 {
 		c.unres(rule, "rang3.Subtract/leaves-minuend", p.Pos(fd.Pos()), "no statement taking ranges off the minuend was found")
 	}
